@@ -25,7 +25,7 @@ TIERS = {
 RULE = ('per run: routine in {fast_matvec, dmrg_hadamard, amen_mv, amen_mm}; order 1..6; row/column/inner mode sizes 1..6 drawn '
         'independently; operand ranks 1..4; N(0,1), geometric-decay or cancelling 10^+-6 core scales; float64 (+complex128 for DMRG); '
         'eps=10^-k, k in 1..12; initial guess in {none, random rank 1, random rank 3, exact answer, perturbed answer}; the global '
-        'torch PRNG (initial guess, rank kick, enrichment) is seeded per run from the run PRNG; on 25%% of runs primary SVD calls fail (late calls too) '
+        'torch PRNG (initial guess, rank kick, enrichment) is seeded per run from the run PRNG; on 25% of runs primary SVD calls fail (late calls too) '
         'at seeded indices; distinct by (routine, order, dtype, value class, eps decade, guess kind, fault kind, singleton/odd-size flags)')
 ASSUMPTIONS = ['single-threaded BLAS, so a run is a pure function of (seed, run index, working tree)',
                'oracle constant C=5: error <= 5*eps*||exact|| (calibrated: worst observed ratio err/eps 0.81 over 200 000 runs)',
